@@ -174,6 +174,27 @@ class LazyMeta(ht.MetadataNode):
         return TF(self.payload_recipes, self.ret).tagify()
 
 
+class StoredTF(TF):
+    """Tagifiable that builds its (already tagified) result once and hands out that same object every time."""
+
+    def tagify(self):
+        self.calls += 1
+        if not hasattr(self, "_stored"):
+            self._stored = super().tagify()
+        return self._stored
+
+
+class SubTagList(ht.TagList):
+    """A TagList subclass is a TagList."""
+
+
+class SubListTF(TF):
+    def tagify(self):
+        self.calls += 1
+        kids = [build(r) for r in self.payload_recipes]
+        return SubTagList(*ht.TagList(*kids).tagify())
+
+
 class FlakyTF(TF):
     """Tagifiable whose first tagify() call fails; later calls succeed."""
 
@@ -185,7 +206,7 @@ class FlakyTF(TF):
         return super().tagify()
 
 
-HARNESS_DOUBLES = (ReprObj, TF, TFObj, LazyMeta)
+HARNESS_DOUBLES = (ReprObj, TF, TFObj, LazyMeta)  # (StoredTF etc. are TF subclasses)
 
 _SHARED = {}
 
@@ -263,6 +284,10 @@ def _build(r):
             return LazyMeta(r["c"], r.get("ret", "list"))
         if r.get("as") == "flaky":
             return FlakyTF(r["c"], r.get("ret", "list"))
+        if r.get("as") == "stored":
+            return StoredTF(r["c"], r.get("ret", "list"))
+        if r.get("as") == "sublist":
+            return SubListTF(r["c"], "list")
         return TF(r["c"], r.get("ret", "list"))
     if k == "tfobj":
         return TFObj(r["c"], r.get("ret", "list"), r["s"])
